@@ -1,5 +1,6 @@
 SPECIFICATION Spec
 CONSTANTS
+  Fault = "none"
   Cfgs <- T5C_Cfgs
   Soc0s <- SocAll
   Dts <- Dt2
